@@ -38,7 +38,9 @@ class C04(Property):
     workers = 8
     tolerance = RTOL
     required_theorems = ['C04_chain_naturality', 'C04_chain_needs_bounds', 'C04_scaled_transfer',
-                         'C04_after_sweep', 'C04_input_value', 'C04_transfer_subst']
+                         'C04_after_sweep', 'C04_input_value', 'C04_transfer_subst',
+                         'C04_chain_specs_numpy', 'C04_tuple_levels_refine',
+                         'C04_connected_value_numpy']
     rule = ("cases: random acyclic models from harness/genmodel.py (1-2 IndepVarComps, 2-5 polynomial "
             "explicit components in nested groups; every input connected by connect()/promotes() "
             "with src_indices chains of 0-3 levels in all index forms (int, negative, slice, array, "
@@ -56,7 +58,10 @@ class C04(Property):
                   "conversion, combined solver-scaling factors, run-once sweep) is modelled in Lean; "
                   "proved for all chains/values/orders: chain flattening is natural w.r.t. gathering, "
                   "scaled transfer equals unit conversion of the physical value, inputs stay equal to "
-                  "the transfer of the final outputs after a data-flow-ordered pass. Tied to the real "
+                  "the transfer of the final outputs after a data-flow-ordered pass; and, composing C05's "
+                  "indexer model, the per-level positions OpenMDAO's indexer computes from the index "
+                  "specifications of a chain are NumPy's (tuple forms, every shape, every depth), so the "
+                  "connected value is the level-by-level NumPy indexing of the source. Tied to the real "
                   "framework by running generated hierarchies and comparing every input seen at every "
                   "compute with the model and with an exact NumPy/Fraction oracle.")
     level_note = ("partial: theorems are about the flat ModelSpec; OpenMDAO's setup (promotion and "
@@ -174,6 +179,11 @@ class C04(Property):
             sod = [o for o in md['comps'][sci]['outs'] if o['name'] == soname][0]
             reqs.append({'op': 'chain', 'n': int(np.prod(sod['shape'])),
                          'levels': gm.chain_levels(sod['shape'], cn['chain'])})
+            # the same chain from the index *specifications*: Lean model of OpenMDAO's indexer
+            # (C05) and of NumPy, level after level
+            reqs.append({'op': 'chainspec', 'shape': list(sod['shape']),
+                         'levels': [{'spec': gm.spec_wire(l['spec']), 'flat': bool(l['flat'])}
+                                    for l in cn['chain']]})
             idx.append(k)
         spec = gm.flat_spec(md)
         reqs.append({'op': 'sweep', 'n': spec['n'], 'u0': spec['u0'], 'iters': 1,
@@ -193,6 +203,15 @@ class C04(Property):
             pos, _ = gm.np_positions(sod['shape'], cn['chain'])
             if answers[k]['pos'] != pos:
                 raise Infra('Lean chainPos %s != NumPy chain %s' % (answers[k]['pos'], pos))
+            k += 1
+            cs = answers[k]
+            lv = gm.chain_levels(sod['shape'], cn['chain'])
+            if cs['np'].get('ok') != lv:
+                raise Infra('Lean npIndex chain %s != NumPy levels %s for %s' % (cs['np'], lv, cn['chain']))
+            if case['opts'].get('safe_indices') and (cs['om'].get('ok') != lv or cs['pos'] != pos):
+                # tuple / rank-1 forms: C04_chain_specs_numpy says the indexer gives NumPy's positions
+                return ('indexer model positions %s differ from NumPy %s for chain %s of %s'
+                        % (cs['om'], lv, cn['chain'], sod['shape']))
             k += 1
         if 'error' in impl:
             return 'implementation raised %s; the model evaluates the sweep' % impl['error']
